@@ -408,6 +408,20 @@ def wl_sco_locked(ctx, rng, i):
     except family():
         ctx.count("refusals_observed")
         ctx.count("sco_locked_refusals")
+    # ... also one the object does not carry so far: adding it would change what the identifier stands for
+    absent = {"file": ("hashes", {"MD5": "d41d8cd98f00b204e9800998ecf8427e"}), "domain-name": None, "user-account": ("account_type", "unix"),
+              "software": ("cpe", "cpe:2.3:a:v:sw:*:*:*:*:*:*:*:*")}.get(t)
+    if absent and absent[0] not in d:
+        ctx.ev()
+        for via in ("keyword", "custom_properties"):
+            try:
+                r = stix2.versioning.new_version(d, **({absent[0]: absent[1]} if via == "keyword" else {"custom_properties": {absent[0]: absent[1]}}))
+                if absent[0] in to_json(r) and to_json(r).get("id") == d["id"]:
+                    ctx.violation("sco-contributing-property-changed", "adding the absent id-contributing %s to a UUIDv5 %s (via %s) was accepted and the id kept" % (absent[0], t, via),
+                                  {"object": d, "attempt": {absent[0]: absent[1]}, "via": via, "result": to_json(r)})
+            except family():
+                ctx.count("refusals_observed")
+                ctx.count("sco_locked_refusals")
     ctx.ev()
     try:
         r = stix2.versioning.new_version(d, **{free: fv})
